@@ -4,6 +4,8 @@ from __future__ import annotations
 import cmath
 from fractions import Fraction
 
+import math
+
 import numpy as np
 from hypothesis import strategies as st
 
@@ -403,6 +405,35 @@ def run_roots_scaled(case):
     return ck.result()
 
 
+def pure_cubic_strategy(tier):
+    @st.composite
+    def s(draw):
+        return {"a": draw(st.sampled_from([1, 1, -1, 2, 3, -5])), "s": draw(st.integers(-4, 4)), "e": draw(st.sampled_from([1, -1, 8, -8, 2, -3, 27, 5, -64]))}
+
+    return s()
+
+
+def run_pure_cubic(case):
+    """a (x + s)^3 + e: the depressed cubic has no linear term, the three roots are the corners of an equilateral triangle around -s (one real cube
+    root and a complex pair) - for either sign of e / a"""
+    a, sh, e = int(case["a"]), int(case["s"]), int(case["e"])
+    if a == 0 or e == 0:
+        raise Skip("degenerate")
+    coeffs = np.array([a, 3 * a * sh, 3 * a * sh * sh, a * sh**3 + e], dtype=float)
+    r0 = np.cbrt(-e / a)
+    want = [-sh + r0 * w for w in (1, complex(-0.5, math.sqrt(3) / 2), complex(-0.5, -math.sqrt(3) / 2))]
+    r, f = call("roots", U.roots, coeffs)
+    if f:
+        return [f]
+    r = np.atleast_1d(np.asarray(r, dtype=complex))
+    ck = Checker()
+    site = "roots:pure-cubic:" + ("e/a>0" if e / a > 0 else "e/a<0")
+    if ck.check(len(r) == 3 and bool(np.all(np.isfinite(r))), site + ":three-finite-roots", r.tolist()):
+        for z in want:
+            ck.check(np.any(np.abs(r - z) <= 1e-7 * max(1.0, abs(z))), site + ":missing-root", (z, r.tolist()))
+    return ck.result()
+
+
 # ----------------------------------------------------------------------------------------------------- is_multiple
 def ismult_strategy(tier):
     @st.composite
@@ -655,6 +686,8 @@ LAWS = [
     Law("roots", roots_strategy, run_roots, lambda c: len(c["roots"]) != len({json_key(r) for r in c["roots"]}) or any(r[0] == "c" for r in c["roots"]),
         lambda c: [f"deg{c['deg']}", "lead-zeros" if c["lead_zeros"] else "plain"] + (["repeated"] if len(c["roots"]) != len({json_key(r) for r in c["roots"]}) else []),
         {"quick": 600, "thorough": 10000}, "roots of polynomials from planted rational/complex roots incl. double/triple", mandatory=("repeated", "deg3")),
+    Law("roots_pure_cubic", pure_cubic_strategy, run_pure_cubic, lambda c: True, lambda c: ["e/a>0" if c["e"] / c["a"] > 0 else "e/a<0", "shifted" if c["s"] else "x^3+c"],
+        {"quick": 300, "thorough": 3000}, "a (x + s)^3 + e (no linear term after depressing; both signs of e / a): the real cube root and the complex pair", mandatory=("e/a>0", "e/a<0")),
     Law("roots_rescaled", roots_scaled_strategy, run_roots_scaled, lambda c: c["scale"] != [1, 1], lambda c: [f"deg{c['deg']}", "scale=%g" % (c["scale"][0] / c["scale"][1])] + (["cluster"] if c["center"] and c["scale"][0] * 100 >= c["scale"][1] else []),
         {"quick": 1200, "thorough": 20000}, "simple, well separated roots multiplied by s = 1e-4 ... 1e3 (and shifted to a cluster around 1 or -2 for s >= 1e-2): the roots of the rescaled polynomial are the rescaled roots, to 1e-8 s", shard=300,
         mandatory=("scale=0.0001", "scale=0.001", "scale=1000", "cluster")),
